@@ -66,3 +66,13 @@ func init() {
 		},
 	}...)
 }
+
+func init() {
+	trSpecs = append(trSpecs, trSpec{
+		Name: "unflatten_body", Props: []string{"C13"},
+		File: "internal/util/array.go", Func: "Unflatten", Loop: 1,
+		Atoms:   []atom{{"i + size", "upper", "Z"}, {"len(b)", "len_b", "Z"}},
+		Binders: map[string]map[string]string{"j := i + size": {"j": "i + size"}},
+		Actions: map[string]int{"j = len(b)": 1, "groups = append(groups, b[i:j])": 2},
+	})
+}
